@@ -187,6 +187,16 @@ HoProgram(k, m, e, x) ==
   Single(<< <<Diff(m[1], 2, R(0, 1), K(1)), Ret(R(0, 2))>> >> \o
          [j \in 1..k |-> IF j < k THEN <<Diff(m[j + 1], j + 2, R(0, 1), K(1)), Ret(R(0, 2))>>
                          ELSE PowIns(e, 2) \o <<Ret(R(0, e))>>], x, FALSE)
+\* sparse / dense mixing at higher order (C07, C11): the innermost body builds u = y^2, v = y^3, s = u + v (the rule of + hands the
+\* SAME cotangent object to u and v), ss = s^2, and t = take(w)^2 where take is x[idx] over all entries (deferred scatter-add) of
+\* w in {u, v, s}; the two terms are added in either order, so the scatter reaches its target before or after the dense contribution
+MixBody(ord, tk, sw) ==
+  << Mul(R(0, 1), R(0, 1)), Mul(R(0, 2), R(0, 1)), (IF sw THEN Add(R(0, 3), R(0, 2)) ELSE Add(R(0, 2), R(0, 3))), Mul(R(0, 4), R(0, 4)),
+     Prim("take", <<R(0, tk)>>), Mul(R(0, 6), R(0, 6)), (IF ord = 0 THEN Add(R(0, 7), R(0, 5)) ELSE Add(R(0, 5), R(0, 7))), Ret(R(0, 8)) >>
+MixProgram(k, m, body, x) ==
+  Single(<< <<Diff(m[1], 2, R(0, 1), K(1)), Ret(R(0, 2))>> >> \o
+         [j \in 1..k |-> IF j < k THEN <<Diff(m[j + 1], j + 2, R(0, 1), K(1)), Ret(R(0, 2))>> ELSE body], x, FALSE)
+MixFamily(maxk) == UNION {{MixProgram(k, m, MixBody(o, t, sw), x) : m \in [1..k -> Modes], o \in {0, 1}, t \in {2, 3, 4}, sw \in BOOLEAN, x \in {2}} : k \in 1..maxk}
 HoFamily(maxk, inputs) == UNION {{HoProgram(k, m, e, x) : m \in [1..k -> Modes], e \in 2..5, x \in inputs} : k \in 2..maxk}
 
 \* ---------------------------------------------------------------- several threads on unrelated data (C20)
